@@ -32,7 +32,7 @@ class A(Adapter):
 
     def configs(self):
         base = [cfg("r10c10", True, gen="random", r=10, c=10, tl=None), cfg("r5c9", True, gen="random", r=5, c=9, tl=None),
-                cfg("toy", gen="toy", r=5, c=5, tl=None), cfg("r9c5", gen="random", r=9, c=5, tl=None), cfg("r3c3", gen="random", r=3, c=3, tl=None)]
+                cfg("toy", c02=True, gen="toy", r=5, c=5, tl=None), cfg("r9c5", gen="random", r=9, c=5, tl=None), cfg("r3c3", gen="random", r=3, c=3, tl=None)]
         return cross_tl(base, [None, 1, 2, 3, 7])
 
     def build(self, c):
